@@ -322,28 +322,42 @@ def r4_4(ctx):
     for n in walk_local(render.node):
         if isinstance(n, ast.Call) and norm(expand_alias(n.func, aliases)) == "spans.append":
             appends.append(n)
+    # classify every append by the branch facts that hold where it executes (CFG, canonical tests): opening-tag code runs
+    # under `tag.name.startswith('/')` false, closing-tag code under it true - however the branches are nested or guarded
+    from ..yieldpaths import canon_test
+    g = cfgmod.build(render.node)
     open_branch_appends = []
     close_appends = []
+    unknown = []
     for a in appends:
-        anc = list(_ancestors(m, a, render.node))
-        in_open = False
-        for x in anc:
-            if isinstance(x, ast.If) and "startswith('/')" in norm(x.test):
-                # which arm?
-                in_body = any(a in list(ast.walk(s)) for s in x.body)
-                in_open = not in_body
-                if in_body:
-                    close_appends.append(a)
-        if in_open:
+        st = _stmt_of(m, a)
+        verdict = None
+        for nid in g.nodes_of(st):
+            for t, tv in g.branch_facts(nid):
+                for atom, val in canon_test(t, tv):
+                    if "startswith('/')" in atom:
+                        verdict = "close" if val else "open"
+        if verdict == "open":
             open_branch_appends.append(a)
-        elif a not in close_appends:
+        elif verdict == "close":
             close_appends.append(a)
+        else:
+            unknown.append(a)
     if isinstance(v, ast.Name) and v.id == "spans":
         # by-construction order: every append must happen at open time, closes must store in place
-        ok = bool(open_branch_appends) and not close_appends
+        ok = bool(open_branch_appends) and not close_appends and not unknown
         stores = [n for n in walk_local(render.node) if isinstance(n, ast.Subscript) and isinstance(n.ctx, ast.Store) and norm(n.value) == "spans"]
-        # the index stored into must come from the stack entry pushed at open time
-        push_ok = any(isinstance(n, ast.Call) and norm(n.func) == "style_stack.append" and n.args and isinstance(n.args[0], ast.Tuple) and norm(n.args[0].elts[0]) == "len(spans)" for n in walk_local(render.node))
+        # the index stored into must come from the stack entry pushed at open time: the push records len(spans) (alone or as the
+        # first component) right where the span is reserved
+        def records_index(n):
+            if not (isinstance(n, ast.Call) and norm(expand_alias(n.func, aliases)) == "style_stack.append" and n.args):
+                return False
+            a0 = n.args[0]
+            return norm(a0) == "len(spans)" or (isinstance(a0, ast.Tuple) and a0.elts and norm(a0.elts[0]) == "len(spans)")
+        pushes = [n for n in walk_local(render.node) if records_index(n)]
+        push_ok = bool(pushes) and all(any(_stmt_of(m, pu).lineno <= _stmt_of(m, a).lineno and m.parent_of.get(_stmt_of(m, pu)) is m.parent_of.get(_stmt_of(m, a)) for pu in pushes) for a in open_branch_appends)
+        if unknown and not close_appends:
+            raise AnalysisError(f"render(): cannot tell whether `{short(unknown[0])}` runs for opening or for closing tags; span order cannot be decided")
         ctx.check(ok and stores and push_ok, render.fq, short(assign), where, "spans are reserved when a tag opens (stack entry carries len(spans)) and filled in place when it closes: list order = opening order",
                   "text.spans is the raw span list but spans are appended when tags CLOSE: list order is closing order, so an outer tag closed later overrides the inner tag opened after it")
         return
